@@ -32,8 +32,16 @@ def summarise(ctx, kind, ret, label, nontrivial_all):
         ctx.bump_in("exception_types", t, n)
     if nontrivial_all:
         ctx.extra["_nontriv_by_construction"] = ctx.extra.get("_nontriv_by_construction", 0) + ret["n"]
+    if "oom_fired" in ret:
+        ctx.bump("allocation_failures_injected_and_reached", ret["oom_fired"])
+        ctx.bump("values_returned_despite_an_allocation_failure", ret.get("oom_ok", 0))
+        for t, n in ret.get("oom_exc", {}).items():
+            ctx.bump_in("exception_types_under_allocation_failure", t, n)
     for b in ret["bad"]:
         wit = {"kind": kind, "input": b.get("input"), "family": label}
+        if b.get("oom_wrong_value"):
+            ctx.violation(f"wrong-value-after-allocation-failure {kind}",
+                          f"{kind}: with allocation #{b.get('alloc_failure_at')} inside the decoder failing, it returned a value other than the fault-free one", wit)
         if b.get("outcome") == "nonstd":
             ctx.violation(f"non-std-exception {kind}", f"{kind} decoder threw something not derived from std::exception", wit)
         if b.get("inflate_budget_exceeded"):
@@ -75,7 +83,7 @@ def run_ops(ctx, jobs):
                 w = res.crash.get("witness") or {}
                 tag = w.get("tag", "")
                 if "#" in tag:
-                    seq = int(tag.rsplit("#", 1)[1])
+                    seq = int(tag.rsplit("#", 1)[1].split(":")[0])
                     op2 = dict(op)
                     op2["skip"] = seq + 1
                     ctx.count(1)
@@ -306,12 +314,27 @@ def run(ctx):
         cuts = [c[:k] for k in sorted({len(c) - 1, len(c) - 7, 16383, 16384, 16385, 16388, 32768, 32769, len(c) // 3} ) if 4 < k < len(c)]
         pcuts = [wrap(payload[:k]) for k in (16384, 16383, 16385, len(payload) - 1, len(payload) - 6, 24, 25)]
         jobs.append((kind, many_op(kind, [c] + cuts + pcuts, False), "multi-chunk-structured", True))
+    # memory pressure: every valid seed blob (plus blobs with a large trailing block, and a few broken ones) decoded with the
+    # k-th allocation inside the decoder failing, for every k the decoder reaches - the outcome must still be a value or a
+    # std::exception (std::bad_alloc is one), never a call to std::terminate
+    for kind in ENTRY:
+        ins = [b for b in seeds.get(kind, []) if len(b) <= 3000][:4 if quick else 12]
+        if kind in ("v2_track_data", "v2_overview", "v2_beat_data", "v2_quick_cues", "v2_loops"):
+            for v in small_values(ctx.rng, kind, 2):
+                for nx in (1, 4096, 100000):
+                    try:
+                        ins.append(ENC[kind](dict(v, extra=ctx.rng.randbytes(nx).hex())))
+                    except Exception:
+                        pass
+        ins += [b[:len(b) // 2] for b in ins[:2]] + [wrap(b"\x00" * 20), wrap(ctx.rng.randbytes(5000))]
+        jobs.append((kind, dict(many_op(kind, ins, False), oom=400), "allocation-failure-sweep", True))
     ctx.sample({"entry": "v2_quick_cues", "family": "count-ladder", "payload_hex": count_ladder_payloads("v2_quick_cues", ctx.rng)[3].hex()})
     ctx.sample({"entry": "zlib", "family": "length-prefix-ladder", "input_hex": prefix_ladder_blobs([b"abc"])[0].hex()})
     ctx.sample({"entry": "v1_loops", "family": "exhaustive-raw", "op": {"len": 2, "alphabet": "all 256 values"}})
     ctx.assumptions += ["ASan red zones detect only adjacent overflows; every input lives in an exactly-sized heap block",
                         "std::bad_alloc for a single allocation above 128 MiB is a legal outcome",
-                        "the logical termination bound is 100000 inflate() calls per input; wall-clock is only a 90 s backstop"]
+                        "the logical termination bound is 100000 inflate() calls per input; wall-clock is only a 90 s backstop",
+                        "allocation failures are injected at C++ operator new only (zlib's own malloc is not failed)"]
     run_ops(ctx, jobs)
     # libFuzzer stage
     from .. import fuzz
